@@ -184,6 +184,46 @@ class Spec:
                 if code != 0:
                     self.fail('edit-raises', f'{where}: raised (code {code})', culprit=k)
                     self.broken = True
+        elif k == 'clearsupers':
+            self.supers[op[1]] = []
+            if code != 0:
+                self.fail('edit-raises', f'{where}: raised (code {code})', culprit=k)
+                self.broken = True
+        elif k == 'popsuper':
+            ss = self.supers[op[1]]
+            if -len(ss) <= op[2] < len(ss):
+                ss.pop(op[2])
+                if code != 0:
+                    self.fail('edit-raises', f'{where}: raised (code {code})', culprit=k)
+                    self.broken = True
+        elif k == 'setsupers':
+            self.supers[op[1]] = list(dict.fromkeys(op[2]))
+            if code != 0:
+                self.fail('edit-raises', f'{where}: raised (code {code})', culprit=k)
+                self.broken = True
+        elif k == 'replsuper':
+            ss = self.supers[op[1]]
+            if ss:
+                ss.pop()
+                if op[2] not in ss:
+                    ss.append(op[2])
+                if code != 0:
+                    self.fail('edit-raises', f'{where}: raised (code {code})', culprit=k)
+                    self.broken = True
+        elif k == 'popfeat':
+            fs = self.feats[op[1]]
+            if -len(fs) <= op[2] < len(fs):
+                fs.pop(op[2])
+                if code != 0:
+                    self.fail('edit-raises', f'{where}: raised (code {code})', culprit=k)
+                    self.broken = True
+        elif k == 'popop':
+            os_ = self.ops[op[1]]
+            if -len(os_) <= op[2] < len(os_):
+                os_.pop(op[2])
+                if code != 0:
+                    self.fail('edit-raises', f'{where}: raised (code {code})', culprit=k)
+                    self.broken = True
         elif k == 'addfeat':
             _, c, name, ftype, many, default, via = op
             self.did += 1
@@ -311,81 +351,181 @@ class Gen:
             self.emit(['newclass', self.rand_supers(k)])
         n = 0
         while n < self.nedits:
-            nc = len(sp.supers)
-            x = r.random()
-            c = r.randint(1, nc)
-            if x < 0.08 and nc < ncls:
-                self.emit(['newclass', self.rand_supers(nc + 1)])
-            elif x < 0.20:
-                s = r.randint(0, nc)
-                if s == c or (s != 0 and sp.reaches(s, c)):
-                    continue
-                self.emit(['addsuper', c, s, r.choice(['append', 'append', 'insert', 'extend', 'iadd'])])
-            elif x < 0.27:
-                if sp.supers[c] and r.random() < 0.9:
-                    self.emit(['rmsuper', c, r.choice(sp.supers[c])])
-                else:
-                    s = r.randint(1, nc)
-                    if s in sp.supers[c]:
-                        continue
-                    self.emit(['rmsuper', c, s])
-            elif x < 0.40:
-                name = r.choice(FEAT_NAMES)
-                if any(d['name'] == name for d in sp.feats[c]):
-                    continue
-                ref = r.random() < 0.35
-                many = r.random() < 0.4
-                self.emit(['addfeat', c, name, r.randint(1, nc) if ref else 0, 1 if many else 0,
-                           -1 if ref else r.choice([0, 0, 5]), r.choice(['append', 'append', 'extend'])])
-            elif x < 0.49:
-                if sp.feats[c]:
-                    self.emit(['rmfeat', c, r.choice(sp.feats[c])['name']])
-                elif r.random() < 0.25:
-                    self.emit(['rmfeat', c, r.choice(FEAT_NAMES)])     # not declared: KeyError, nothing changes
-                else:
-                    continue
-            elif x < 0.505:
-                self.emit(['clearfeats', c])
-            elif x < 0.56:
-                name = r.choice(OP_NAMES)
-                if name in sp.ops[c]:
-                    continue
-                self.emit(['addop', c, name, r.choice([[], [['a', 1, 'int']], [['a', 1, 'int'], ['d', 0, 'str']]]),
-                           r.choice(['append', 'extend'])])
-            elif x < 0.60:
-                if sp.ops[c]:
-                    self.emit(['rmop', c, r.choice(sp.ops[c])])
-                elif r.random() < 0.2:
-                    self.emit(['clearops', c])
-                else:
-                    continue
-            elif x < 0.70 or not sp.inst:
-                self.emit(['newinst', c])
-            else:
-                i = r.randrange(len(sp.inst))
-                y = r.random()
-                visible = [m for m in NAMES if sp.decls(sp.inst[i], m)]
-                name = r.choice(visible) if (visible and r.random() < 0.7) else r.choice(NAMES)
-                D = sp.decls(sp.inst[i], name)
-                if y < 0.4 or not D:
-                    self.emit(['get', i, name])
-                else:
-                    d = D[0]
-                    z = r.random()
-                    if z < 0.55:
-                        v = r.choice([1, 7, 42]) if d['ftype'] == 0 else 1000 + r.randrange(len(sp.inst))
-                    elif z < 0.7:
-                        v = -1
-                    else:
-                        v = 1000 + r.randrange(len(sp.inst)) if d['ftype'] == 0 else r.choice([3, 1000 + r.randrange(len(sp.inst))])
-                    kind = 'append' if (d['many'] != (r.random() < 0.1)) else 'set'
-                    self.emit([kind, i, name, v])
-            n += 1
+            if self.step(ncls):
+                n += 1
         if not sp.inst or r.random() < 0.5:
             for c in range(1, len(sp.supers) + 1):
                 if r.random() < 0.7:
                     self.emit(['newinst', c])
         return self.h
+
+    def step(self, ncls):
+        """One op of the ordinary alphabet; False when the draw was not applicable (nothing emitted)."""
+        r, sp = self.rng, self.sp
+        nc = len(sp.supers)
+        x = r.random()
+        c = r.randint(1, nc)
+        if x < 0.08 and nc < ncls:
+            self.emit(['newclass', self.rand_supers(nc + 1)])
+        elif x < 0.20:
+            s = r.randint(0, nc)
+            if s == c or (s != 0 and sp.reaches(s, c)):
+                return False
+            self.emit(['addsuper', c, s, r.choice(['append', 'append', 'insert', 'extend', 'iadd'])])
+        elif x < 0.27:
+            if sp.supers[c] and r.random() < 0.9:
+                self.emit(['rmsuper', c, r.choice(sp.supers[c])])
+            else:
+                s = r.randint(1, nc)
+                if s in sp.supers[c]:
+                    return False
+                self.emit(['rmsuper', c, s])
+        elif x < 0.40:
+            name = r.choice(FEAT_NAMES)
+            if any(d['name'] == name for d in sp.feats[c]):
+                return False
+            ref = r.random() < 0.35
+            many = r.random() < 0.4
+            self.emit(['addfeat', c, name, r.randint(1, nc) if ref else 0, 1 if many else 0,
+                       -1 if ref else r.choice([0, 0, 5]), r.choice(['append', 'append', 'extend'])])
+        elif x < 0.49:
+            if sp.feats[c]:
+                self.emit(['rmfeat', c, r.choice(sp.feats[c])['name']])
+            elif r.random() < 0.25:
+                self.emit(['rmfeat', c, r.choice(FEAT_NAMES)])     # not declared: KeyError, nothing changes
+            else:
+                return False
+        elif x < 0.505:
+            self.emit(['clearfeats', c])
+        elif x < 0.56:
+            name = r.choice(OP_NAMES)
+            if name in sp.ops[c]:
+                return False
+            self.emit(['addop', c, name, r.choice([[], [['a', 1, 'int']], [['a', 1, 'int'], ['d', 0, 'str']]]),
+                       r.choice(['append', 'extend'])])
+        elif x < 0.60:
+            if sp.ops[c]:
+                self.emit(['rmop', c, r.choice(sp.ops[c])])
+            elif r.random() < 0.2:
+                self.emit(['clearops', c])
+            else:
+                return False
+        elif x < 0.70 or not sp.inst:
+            self.emit(['newinst', c])
+        else:
+            i = r.randrange(len(sp.inst))
+            y = r.random()
+            visible = [m for m in NAMES if sp.decls(sp.inst[i], m)]
+            name = r.choice(visible) if (visible and r.random() < 0.7) else r.choice(NAMES)
+            D = sp.decls(sp.inst[i], name)
+            if y < 0.4 or not D:
+                self.emit(['get', i, name])
+            else:
+                d = D[0]
+                z = r.random()
+                if z < 0.55:
+                    v = r.choice([1, 7, 42]) if d['ftype'] == 0 else 1000 + r.randrange(len(sp.inst))
+                elif z < 0.7:
+                    v = -1
+                else:
+                    v = 1000 + r.randrange(len(sp.inst)) if d['ftype'] == 0 else r.choice([3, 1000 + r.randrange(len(sp.inst))])
+                kind = 'append' if (d['many'] != (r.random() < 0.1)) else 'set'
+                self.emit([kind, i, name, v])
+        return True
+
+
+CLEAR_VIAS = ['clear', 'delslice', 'delattr', 'assign']
+
+
+class BulkGen(Gen):
+    """Histories in which a share of the edits are BULK calls on eSuperTypes / eStructuralFeatures / eOperations:
+    clear(), del coll[:], del owner.coll, owner.coll = [...], pop(), pop(i), del coll[i], coll[-1] = x."""
+
+    def __init__(self, rng, maxc, nedits, share=0.3):
+        super().__init__(rng, maxc, nedits)
+        self.share = share
+
+    def valid_super(self, c, s):
+        return s != c and (s == 0 or not self.sp.reaches(s, c))
+
+    def step(self, ncls):
+        r, sp = self.rng, self.sp
+        if r.random() >= self.share:
+            return super().step(ncls)
+        nc = len(sp.supers)
+        rich = [k for k in range(1, nc + 1) if len(sp.supers[k]) >= 2]
+        c = r.choice(rich) if (rich and r.random() < 0.5) else r.randint(1, nc)
+        x = r.random()
+        if x < 0.30:
+            if not sp.supers[c] and r.random() < 0.8:
+                return False
+            self.emit(['clearsupers', c, r.choice(CLEAR_VIAS)])
+        elif x < 0.45:
+            n = len(sp.supers[c])
+            if n == 0 and r.random() < 0.8:
+                return False
+            idx = r.choice([-1, -1, 0, r.randrange(-n, n) if n else 0])
+            self.emit(['popsuper', c, idx, r.choice(['pop', 'pop', 'delitem'])])
+        elif x < 0.65:
+            cand = [s for s in range(1, nc + 1) if self.valid_super(c, s)]
+            r.shuffle(cand)
+            new = cand[:r.choice([0, 1, 1, 2, 2, 3])]
+            if new and r.random() < 0.08:
+                new.insert(r.randrange(len(new) + 1), 0)
+            self.emit(['setsupers', c, new])
+        elif x < 0.72:
+            cand = [s for s in range(0, nc + 1) if self.valid_super(c, s)]
+            if not sp.supers[c] or not cand:
+                return False
+            self.emit(['replsuper', c, r.choice(cand)])
+        elif x < 0.80:
+            if not sp.feats[c] and r.random() < 0.7:
+                return False
+            self.emit(['clearfeats', c, r.choice(CLEAR_VIAS)])
+        elif x < 0.88:
+            n = len(sp.feats[c])
+            if n == 0 and r.random() < 0.8:
+                return False
+            self.emit(['popfeat', c, r.choice([-1, 0, n - 1 if n else 0]), r.choice(['pop', 'delitem'])])
+        elif x < 0.94:
+            if not sp.ops[c] and r.random() < 0.7:
+                return False
+            self.emit(['clearops', c, r.choice(CLEAR_VIAS)])
+        else:
+            n = len(sp.ops[c])
+            if n == 0 and r.random() < 0.8:
+                return False
+            self.emit(['popop', c, r.choice([-1, 0]), r.choice(['pop', 'delitem'])])
+        return True
+
+
+def bulk_systematic():
+    """The diamond A <- B, A <- C, (B, C) <- D with one feature per class and instances of every class created before;
+    one bulk call on the super types of D or of B (every spelling), instances created after; the final dump judges."""
+    base = [['newclass', []], ['newclass', [1]], ['newclass', [1]], ['newclass', [2, 3]],
+            ['addfeat', 1, 'x', 0, 0, 5, 'append'], ['addfeat', 2, 'y', 0, 1, 0, 'append'],
+            ['addfeat', 3, 'z', 1, 0, -1, 'append'], ['addop', 1, 'f', [], 'append'], ['addop', 3, 'g', [['a', 1, 'int']], 'append'],
+            ['newinst', 1], ['newinst', 2], ['newinst', 3], ['newinst', 4]]
+    after = [['newinst', 4], ['newinst', 2], ['get', 3, 'x'], ['get', 4, 'x'], ['get', 4, 'z']]
+    out = []
+    for target in (4, 2):
+        edits = [[['clearsupers', target, via]] for via in CLEAR_VIAS]
+        edits += [[['popsuper', target, i, via]] for i in (-1, 0) for via in ('pop', 'delitem')]
+        edits += [[['popsuper', target, -1, 'pop'], ['popsuper', target, -1, 'pop']]]
+        if target == 4:
+            edits += [[['setsupers', 4, new]] for new in ([3], [3, 2], [2], [1], [0], [2, 3])]
+            edits += [[['replsuper', 4, s]] for s in (1, 2, 0)]
+            edits += [[['setsupers', 4, [3]], ['setsupers', 4, [2, 3]], ['clearsupers', 4, via], ['addsuper', 4, 2, 'append'],
+                       ['clearsupers', 2, 'delslice']] for via in ('clear', 'delslice')]
+        for e in edits:
+            out.append(base + e + after)
+    # bulk removals of features and operations under existing instances
+    for via in CLEAR_VIAS:
+        out.append(base + [['clearfeats', 1, via], ['clearops', 3, via]] + after)
+    for via in ('pop', 'delitem'):
+        out.append(base + [['addfeat', 1, 'y', 0, 0, 0, 'append'], ['popfeat', 1, 0, via], ['popop', 3, -1, via]] + after)
+        out.append(base + [['addfeat', 1, 'y', 0, 0, 0, 'append'], ['popfeat', 1, -1, via], ['popop', 1, 0, via]] + after)
+    return out
 
 
 def systematic():
@@ -442,6 +582,28 @@ def compare(out, history, model_toks, impl_toks, case):
     return False
 
 
+def in_process(prims, intern):
+    r = mio.run_impl(prims, NAMES, intern)
+    if r['flag_after']:
+        restore_linearisation()
+    return r['tokens']
+
+
+def compare_bulk(out, history, model_toks, impl_toks, case, stats, run_prims):
+    """The model has no bulk ops: a bulk call is compared with the SEQUENCE of primitive edits it stands for.  The two
+    may legitimately part (one assignment of the bases instead of several: other intermediate linearisations, other
+    fall-backs); then the tie model <-> implementation is checked on the sequence itself, and the bulk run is left
+    to the oracle."""
+    if model_toks == impl_toks:
+        return True
+    if mio.has_composite(history):
+        prims, groups = mio.expand(history)
+        if mio.fold_records(list(run_prims(prims)), groups) == model_toks:
+            stats['bulk_differs_from_sequence'] += 1
+            return True
+    return compare(out, history, model_toks, impl_toks, case)
+
+
 def run_worker(cases, intern):
     req = {'cases': cases, 'intern': intern.t}
     env = dict(os.environ, PYTHONHASHSEED='0', PYTHONDONTWRITEBYTECODE='1')
@@ -467,7 +629,8 @@ def run(ctx, out):
     intern = mio.Interner()
     stats = {'c3_graphs': 0, 'c3_conflicts': 0, 'c3_nontrivial': 0, 'histories': 0, 'ops': 0, 'in_worker': 0,
              'flag_installed_in_worker': 0, 'started_with_flag': 0, 'samples': [], 'op_kinds': {}, 'outcomes': {},
-             'classes_hist': {}, 'stale_cases': 0, 'sorted_fallback': 0}
+             'classes_hist': {}, 'stale_cases': 0, 'sorted_fallback': 0, 'bulk_histories': 0, 'bulk_calls': 0,
+             'bulk_differs_from_sequence': 0}
     c3_exhaustive(out, model, 5 if thorough else 4, stats)
 
     hists = [(h, 'systematic') for h in systematic()]
@@ -475,28 +638,39 @@ def run(ctx, out):
     for _ in range(nrand):
         g = Gen(ctx.rng, 5, ctx.rng.randint(4, 16 if thorough else 10))
         hists.append((g.history(), 'random'))
+    # bulk calls (clear / del [:] / del owner.coll / whole assignment / pop / item replacement): own PRNG stream
+    brng = common.rng_for(ctx.seed, 'C12:bulk')
+    hists += [(h, 'bulk-systematic') for h in bulk_systematic()]
+    for _ in range(15000 if thorough else 1500):
+        g = BulkGen(brng, 5, brng.randint(3, 14 if thorough else 9))
+        hists.append((g.history(), 'bulk-random'))
     deferred = []
     for h, origin in hists:
         case = {'section': origin, 'history': h, 'names': NAMES}
+        if origin.startswith('bulk'):
+            case.update({'scenario': 'bulk', 'seed': ctx.seed, 'tier': ctx.tier})
+            stats['bulk_histories'] += 1
+            stats['bulk_calls'] += sum(1 for op in h if op[0] in mio.COMPOSITE or (op[0] in ('clearfeats', 'clearops') and len(op) > 2))
         for op in h:
             stats['op_kinds'][op[0]] = stats['op_kinds'].get(op[0], 0) + 1
         ncls = sum(1 for op in h if op[0] == 'newclass')
         stats['classes_hist'][ncls] = stats['classes_hist'].get(ncls, 0) + 1
-        mt = model.ask('metaedit', mio.model_tokens(h, NAMES, False, intern))
+        mt = mio.model_ask(model, h, NAMES, False, intern)
         stats['histories'] += 1
         stats['ops'] += len(h)
         if len(mt) > 1 and mt[-2] == 1:
             deferred.append(case)
             continue
-        if deferred and ctx.rng.random() < 0.03:
+        if deferred and (brng if origin.startswith('bulk') else ctx.rng).random() < 0.03:
             deferred.append(case)          # ordinary histories also run after the replacement, in the worker
             continue
         r = mio.run_impl(h, NAMES, intern)
         if r['flag_after']:
-            out.diff('the implementation replaced the linearisation of its metaclass in a history for which the model '
-                     'does not predict it', case)
             restore_linearisation()
-        compare(out, h, mt, r['tokens'], case)
+            if not mio.has_composite(h):
+                out.diff('the implementation replaced the linearisation of its metaclass in a history for which the model '
+                         'does not predict it', case)
+        compare_bulk(out, h, mt, r['tokens'], case, stats, lambda prims: in_process(prims, intern))
         for code, _ in r['per_op']:
             stats['outcomes'][code] = stats['outcomes'].get(code, 0) + 1
         judge(out, h, NAMES, r['tokens'], r['per_op'], case)
@@ -519,9 +693,11 @@ def run(ctx, out):
             stats['in_worker'] += 1
             stats['started_with_flag'] += 1 if r['flag_before'] else 0
             stats['flag_installed_in_worker'] += 1 if (r['flag_after'] and not r['flag_before']) else 0
-            mt = model.ask('metaedit', mio.model_tokens(h, NAMES, r['flag_before'], intern))
+            mt = mio.model_ask(model, h, NAMES, r['flag_before'], intern)
             per_op = [tuple(x) for x in r['per_op']]
-            compare(out, h, mt, r['tokens'], case)
+            compare_bulk(out, h, mt, r['tokens'], case, stats,
+                         lambda prims, fb=bool(r['flag_before']): run_worker(
+                             [{'history': prims, 'names': NAMES, 'needs_flag': fb}], intern)[0]['tokens'])
             judge(out, h, NAMES, r['tokens'], per_op, case)
             if r['isinstance_disagreements']:
                 out.fail({'property': 'C12', 'clause': 'isinstance-vs-EcoreUtils', 'culprit': 'isinstance', 'qualifiers': []},
@@ -539,7 +715,10 @@ def run(ctx, out):
         'rule': 'C3: every class graph in which class k (k <= %d) takes an ordered selection of earlier classes as bases, '
                 'compared with type.mro() class by class (nontrivial = linearisation longer than 3); histories: the '
                 'systematic diamond/order set plus seeded random edit histories (<= 5 classes, <= %d edits + final '
-                'instantiation), each run on model and implementation and dumped for every instance x name x class'
+                'instantiation), each run on model and implementation and dumped for every instance x name x class; '
+                'bulk family (own PRNG stream): the diamond with every spelling of a bulk removal / whole assignment / '
+                'pop / item replacement on eSuperTypes, eStructuralFeatures, eOperations, plus random histories in which '
+                '30%% of the edits are such calls (model side: the sequence of primitive edits the call stands for)'
                 % (5 if thorough else 4, 16 if thorough else 10),
         'traces_validated_against_impl': stats['histories'],
         'c3_graphs': stats['c3_graphs'], 'c3_conflicts': stats['c3_conflicts'],
@@ -549,6 +728,8 @@ def run(ctx, out):
         'histories_installing_the_global_replacement': stats['flag_installed_in_worker'],
         'histories_started_with_replacement_installed': stats['started_with_flag'],
         'oracle_failures_of_the_known_stale_slot_kind': stats['stale_cases'],
+        'bulk_call_histories': stats['bulk_histories'], 'bulk_calls': stats['bulk_calls'],
+        'bulk_call_histories_where_the_implementation_parts_from_the_primitive_sequence': stats['bulk_differs_from_sequence'],
         'samples': stats['samples'][:5],
     })
     out.assumptions += [
